@@ -67,7 +67,9 @@ def routing_case(ctx, case, monitors):
     cfg, family, B, seed = case["cfg"], case["family"], case["B"], case["s"]
     if case.get("reuse") and cfg["env"] not in REUSE_OK:
         case = dict(case, reuse=False)
-    env, O = envzoo.make(cfg)
+    # TorchRL mode (step() keeps the caller's state and returns the new one under "next"), driven with look-ahead probes: before
+    # every real move another admitted action is stepped from the same retained state and discarded
+    env, O = envzoo.make(dict(cfg, torchrl=True) if case.get("torchrl") else cfg)
     td_in = envzoo.instances(env, cfg, family, B, seed)
     gen = torch.Generator().manual_seed(seed)
     names = envzoo.chooser_mix(B, seed) if case.get("choosers", "mix") == "mix" else [case["choosers"]] * B
@@ -79,7 +81,10 @@ def routing_case(ctx, case, monitors):
         # episode must leave nothing behind in it; the monitors below watch the SECOND episode
         run_episode(env, td_in, list(reversed(names)), torch.Generator().manual_seed(seed + 1), max_steps=case.get("max_steps", 6 * cfg["n"] + 30), clone_input=False)
         ctx.count("reused_instance_objects")
-    ep = run_episode(env, td_in, names, gen, max_steps=case.get("max_steps", 6 * cfg["n"] + 30), clone_input=not case.get("reuse"))
+    ep = run_episode(env, td_in, names, gen, max_steps=case.get("max_steps", 6 * cfg["n"] + 30), clone_input=not case.get("reuse"), peek="last_true" if case.get("torchrl") else None)
+    if case.get("torchrl"):
+        ctx.count("torchrl_mode_episodes")
+        ctx.count("torchrl_lookahead_probes", getattr(ep, "peeks", 0))
     td0 = ep.td0
     # static instance fields for the oracles: in reuse mode from a reset of the pristine copy, not of the reused object
     td0_src = env.reset(td_pristine.clone()) if case.get("reuse") else td0
